@@ -10,6 +10,7 @@
 mod term;
 mod sandbox;
 mod unify;
+mod bip;
 
 use serde_json::Value;
 
@@ -33,6 +34,7 @@ impl Obs {
 pub fn props_of(case: &Value) -> Vec<&'static str> {
     match case["t"].as_str().unwrap_or("") {
         "unify" => unify::props_of(case),
+        "bip" => bip::props_of(case),
         _ => vec![],
     }
 }
@@ -41,6 +43,8 @@ pub fn props_of(case: &Value) -> Vec<&'static str> {
 pub fn run_case(case: &Value) -> Vec<Obs> {
     match case["t"].as_str().unwrap_or("") {
         "unify" => unify::replay(case),
+        "bip" => bip::replay(case),
+        "atoms" => bip::check_atoms(case),
         other => vec![Obs::bad("TOOL", "unknown-case-type", other.to_string())],
     }
 }
